@@ -6,5 +6,5 @@ for body, tier in ((4, "quick"), (5, "thorough"), (7, "thorough")):
         JOBS.append(dict(name="expr.%s.b%d" % (which, body), props=["C19", "C01"], kind="B",
             bound="expression body <= %d bytes over {1 2 - . : , ! @ blank a}, every index 0..%d%s; unwinding assertions on" % (body, body + 1, ", capacity 0..3" if which == "channel" else ""),
             harness="h_expr.c", entry="h_expr_" + which, contracts=["common.h"], defines=["BODY=%d" % body], loops=False,
-            cbmc_flags=["--unwind", str(body + 6), "--unwinding-assertions"], tier=("quick" if (which == "numeric" and body == 5) else tier), timeout=3000, cost=40, mem_gb=24,
+            cbmc_flags=["--unwind", str(body + 6), "--unwinding-assertions"], tier=("quick" if (which == "numeric" and body == 5) else "thorough"), timeout=3000, cost=40, mem_gb=24,
             what="real SCPI_Expr*ListEntry* over the real lexer == reference list parser written from the statement"))
